@@ -2,8 +2,10 @@
 
 package discovery
 
-// VerifYield, when set, is called by the Synchronize goroutine of member id at the named point
-// (currently: "intersect", after the peer table has been read and before the views are compared).
+// VerifYield, when set, is called by the Synchronize goroutine of member id at the named point:
+// "intersect" (after the peer table has been read and before the views are compared), "select"
+// (before the collecting loop waits), "wait" (before the confirmation loop waits) and "ack" (after a
+// confirmation has been taken from the channel).
 // The verification harness under /verif uses it to deliver messages at that very moment.
 // No lock is held at a yield point.
 var VerifYield func(id uint16, point string)
